@@ -33,11 +33,25 @@ functions each generated file holds - does not depend on map order when every sh
 (the uncovered case is open finding F18b, with witness); the extra fields of a model come out sorted whatever the map order.
 Ties: `driver_c18 pins` on every follow-schema project's summary under several delivery orders (Spec: one outcome) vs the
 dir_<name>_args functions in the really generated files; `driver_c18 xf` vs the extra fields of the real structs.
+
+Round 5: (a) templates.Render on template SETS of every shape (0-4 `!.gotpl` roots x ordinary roots, includes, templates defined
+inside files, sub-directories; TemplateFS as directory / in-memory, templates next to the caller) rendered repeatedly in separate
+processes (`h_c18 -mode render`); regenerated `Gen/RenderOrder.lean` (the comparator literal of Render, guard by guard); proved
+(Props/C18Tpl.lean): it is a strict total order ("important first, then by name"), so the execution order of the roots does not
+depend on the map order, whatever the set. Ties: `driver_c18 roots` under several delivery orders (Spec: one outcome) vs the
+regions of the really rendered file. (b) project dimension shadow: hand-written model packages whose nested-scope identifiers
+(type parameters, parameters, results, locals, local types, labels, receivers …) are named like bound types; regenerated
+`Gen/IndexDefs.lean` (the guards of binder.indexDefs); mapranges.go no longer accepts an index DERIVED from the loop key as
+keyed write (reviewed, hash-pinned); proved (Props/C18Bind.lean): only package-scope definitions are indexed, hence FindObject
+does not depend on the order of TypesInfo.Defs. Ties: `h_c18 -mode find` (fresh binders, real FindObject) vs `driver_c18 idx`.
+A project whose FIRST generation fails is generated again (up to 3 times): failing in one process and succeeding in the next is
+a violation too.
 """
 import difflib
 import os
 import re
 import shutil
+import time
 from collections import Counter
 from concurrent.futures import ThreadPoolExecutor
 
@@ -141,10 +155,15 @@ def run(ctx):
         "maps ranged over by text/template are visited in sorted key order (text/template contract)",
         "cycle-pass model (Model/CyclePass.lean): struct names are compared as Go names; templates.ToGo is the identity on the names the relations projects use",
         "per-file builds (Model/PerSchema.lean): a build is reduced to the one source addBuild pins it to; the output name of an element is the base name of its schema file put into exec.filename_template; data.Objects / data.Inputs are delivered sorted by name (BuildData's sort, inventory); tied to the real generator by the dir_<name>_args functions of the generated files of every follow-schema project",
+        "root-template order (Model/RenderOrder.lean): sort.SliceStable is modelled by a merge sort - with a strict total order every correct sort returns the same list; template names are compared as byte strings; tied to the real Render by the regions of the rendered files",
+        "binder index (Model/IndexDefs.lean): an entry of TypesInfo.Defs is reduced to (identifier name, object, nil?, parent scope is nil / the package scope / another scope); the Go type checker keeps package-scope names pairwise distinct (hypothesis PkgDistinct); tied to the real binder by FindObject on every bound type of the projects with hand-written packages",
         "import-table model (Model/Imports.lean): the imports internal/rewrite reads back from an existing resolver file are a subset of the first rendering's table with the alias Import.String printed; tied to the real generator only by the bound-package projects (imports dimension)",
     ]
-    ok_extract = ctx.extract("Keywords", "MapRanges", "ResolverImports", "SortComparators", "GenerateSteps", "PerSchemaSteps")
-    proved = ok_extract and ctx.prove(props=["GqlgenVerif.Props.C18", "GqlgenVerif.Props.C18Regen", "GqlgenVerif.Props.C18Run", "GqlgenVerif.Props.C18Layout"])
+    t0 = time.time()
+    timings = {}
+    ok_extract = ctx.extract("Keywords", "MapRanges", "ResolverImports", "SortComparators", "GenerateSteps", "PerSchemaSteps", "RenderOrder", "IndexDefs")
+    proved = ok_extract and ctx.prove(props=["GqlgenVerif.Props.C18", "GqlgenVerif.Props.C18Regen", "GqlgenVerif.Props.C18Run", "GqlgenVerif.Props.C18Layout",
+                                           "GqlgenVerif.Props.C18Tpl", "GqlgenVerif.Props.C18Bind"])
     gen_file = os.path.join(vf.LEAN, "GqlgenVerif", "Gen", "MapRanges.lean")
     sites = []
     if os.path.exists(gen_file):
@@ -157,6 +176,8 @@ def run(ctx):
     if ok_extract and not proved:
         ctx.cov["proof_failure"] = ctx.proof_failure
 
+    timings["extract_and_prove"] = round(time.time() - t0, 1)
+    t0 = time.time()
     # ------------------------------------------------------------ real generations
     hbin = os.path.join(vf.CACHE, "h_c18")
     ctx.go_build("./harness/c18", hbin)
@@ -216,13 +237,15 @@ def run(ctx):
     for dim, gen, n in (("rel", c18proj.relations, 3 if quick else 12), ("imp", c18proj.imports, 4 if quick else 14),
                         ("lit", c18proj.literals, 1 if quick else 4), ("fed", c18proj.federation, 4 if quick else 12),
                         ("ab", c18proj.autobind, 4 if quick else 12), ("mod", c18proj.modular, 4 if quick else 12),
-                        ("xf", c18proj.extrafields, 2 if quick else 6)):
+                        ("xf", c18proj.extrafields, 2 if quick else 6), ("sh", c18proj.shadow, 4 if quick else 10)):
         for i in range(n):
             name = "c18%s%d" % (dim, i)
             if dim == "rel":
                 proj = gen(prng, name, always_false=i % 3 != 2)
             elif dim == "fed":
                 proj = gen(prng, name, option=fed_opts[min(i, 3)], version=1 if i == 2 else None, min_requires=9 if i < 2 else 3)
+            elif dim == "sh":
+                proj = gen(prng, name, collisions=(1, 2)[i] if i < 2 else None)      # the first two: few collisions (a run may go either way)
             else:
                 proj = gen(prng, name)
             c18proj.write(root, name, proj, pkg_prefix)
@@ -259,7 +282,25 @@ def run(ctx):
                 err = [l for l in se.split("\n") if l.strip() and not l.startswith("/verif")]
                 err = ([l for l in err if re.match(r"(GENERATE-ERROR|CONFIG-ERROR|PANIC)", l)] + err)[:3]
                 if not runs:
-                    return p, None, err         # the project can not be generated at all: C17's business
+                    # the project's first generation fails. C17's business - unless the SAME inputs generate in another process
+                    first_failures.setdefault(p, []).append({"GOMAXPROCS": procs, "start": start or ".", "clean_tree": True, "failed": err})
+                    again = None
+                    for procs2 in (2, 8, 1):
+                        wipe_generated(d)
+                        env2 = vf.go_env()
+                        env2.update({"GOMAXPROCS": str(procs2), "GOMEMLIMIT": "3GiB"})
+                        rc2, so2, se2 = vf.sh([hbin, "-mode", "gen", "-dir", d, "-start", ""], cwd=vf.GO, env=env2, timeout=600)
+                        if rc2 == 0:
+                            again = procs2
+                            break
+                        first_failures[p].append({"GOMAXPROCS": procs2, "start": ".", "clean_tree": True, "failed": [l for l in se2.split("\n") if re.match(r"(GENERATE-ERROR|CONFIG-ERROR|PANIC)", l)][:2]})
+                    if again is None:
+                        first_failures.pop(p, None)
+                        return p, None, err
+                    files = {k: v for k, v in listing(hbin, d, env2).items() if not k.endswith(INPUT_SUFFIXES) and not k.endswith("keep")}
+                    runs.append({"GOMAXPROCS": again, "start": ".", "clean_tree": True, "files": files,
+                                 "_text": {k: open(os.path.join(d, k), errors="replace").read() for k in files}})
+                    continue
                 # an earlier generation of the SAME inputs succeeded: this one must too (and must leave the same tree)
                 files = {k: v for k, v in listing(hbin, d, env).items() if not k.endswith(INPUT_SUFFIXES) and not k.endswith("keep")}
                 runs.append({"GOMAXPROCS": procs, "start": start or ".", "clean_tree": wipe, "files": files, "failed": err, "_text": {}})
@@ -275,9 +316,12 @@ def run(ctx):
         return p, runs, None
 
     results = {}
+    first_failures = {}
     with ThreadPoolExecutor(max_workers=6) as ex:
         for p, runs, err in ex.map(one, projects):
             results[p] = (runs, err)
+    timings["real_generations"] = round(time.time() - t0, 1)
+    t0 = time.time()
 
     branch = Counter()
     nontriv = set()
@@ -336,6 +380,18 @@ def run(ctx):
                                ", ".join(diff_files[:4]), runs.index(base) + 1, base["GOMAXPROCS"], base["start"],
                                "clean tree" if base["clean_tree"] else "on previous output")})
 
+        if p in first_failures:
+            # clean tree, same inputs: one process fails, another generates
+            ff = first_failures[p]
+            ok_run = runs[0]
+            mismatches += 1
+            ctx.violation({"kind": "generation-outcome-differs-between-processes", "project": p, "failing_runs": ff,
+                           "succeeding_run": {k: v for k, v in ok_run.items() if k in ("GOMAXPROCS", "start", "clean_tree")},
+                           "input": inputs, "dimension": meta.get(p, {}), "order_sensitive_sites": sensitive[:6],
+                           "shape": {"kind": "determinism", "generation_failed": True, "on_previous_output": False},
+                           "replay": "project %s (files in `input`, directory /verif/go/genout/c18/%s): `.cache/h_c18 -mode gen -dir <dir>` on a clean tree FAILED in %d process(es) (%s) "
+                                     "and succeeded in the next one (GOMAXPROCS=%d) - same schema, configuration and Go sources" % (
+                                         p, p, len(ff), " / ".join(ff[0]["failed"])[:300], ok_run["GOMAXPROCS"])})
         firsts = {}
         if runs[-1].get("failed"):
             # the same inputs generated fine in an earlier run of this project
@@ -381,6 +437,8 @@ def run(ctx):
         if results[p][0] is None or not have_model:
             continue
         yml_text = open(os.path.join(root, p, "gqlgen.yml")).read()
+        if results[p][0][-1].get("failed"):
+            continue        # reported above; the failing run removed the generated files
         if re.search(r"^(federation|autobind):", yml_text, re.M):
             # the schema summary of `h_c17 -mode decls` is taken from the sources and the `models:` section alone: a federation
             # schema only loads with the plugin's sources, and which types autobind binds is decided inside cfg.Init()
@@ -630,6 +688,169 @@ def run(ctx):
                                                  p, p, mf, x["type"], got, lines[xs.index(x)][:200], want)})
                     break
 
+    timings["model_ties_of_rounds_1_to_4"] = round(time.time() - t0, 1)
+    t0 = time.time()
+    # ------------------------------------------------------------ the binder's name index: real FindObject on every bound type (fresh
+    # binders, each ranges over TypesInfo.Defs anew) vs the index model over the regenerated guards, Defs delivered in several orders
+    bind_cmp = bind_lookups = bind_shadowed = 0
+    # (also for a project whose generation failed in every process: looking its bound types up needs the configuration only)
+    bind_projects = [p for p in projects if any(f.endswith("_src.go") for _, _, fs_ in os.walk(os.path.join(root, p)) for f in fs_)]
+
+    def find_one(p):
+        env = vf.go_env()
+        env.update({"GOMAXPROCS": str(1 + (len(p) * 7) % 8), "GOMEMLIMIT": "3GiB"})
+        return p, vf.sh([hbin, "-mode", "find", "-dir", os.path.join(root, p), "-reps", "12" if quick else "24"], cwd=vf.GO, env=env, timeout=600)
+
+    with ThreadPoolExecutor(max_workers=6) as ex:
+        find_out = dict(ex.map(find_one, bind_projects))
+    for p in bind_projects:
+        rc, so, se = find_out[p]
+        if rc != 0:
+            if results[p][0] is None:
+                continue        # neither generates nor loads: C17's business
+            raise RuntimeError("h_c18 -mode find failed for %s: %s" % (p, (so + se)[-600:]))
+        finds, defs = [], {}
+        for l in so.split("\n"):
+            f = l.split("\t")
+            if f[0] == "find":
+                finds.append((f[1], f[2], f[3], dict(x.rsplit("=", 1) for x in f[4].split(";"))))
+            elif f[0] == "defs":
+                defs[f[1]] = [tuple(x.rsplit("/", 2)) for x in f[2].split(",") if x]
+        bind_cmp += 1
+        d = os.path.join(root, p)
+        inputs = {}
+        for r_, _, fs_ in os.walk(d):
+            for f in sorted(fs_):
+                if f.endswith(INPUT_SUFFIXES):
+                    inputs[os.path.relpath(os.path.join(r_, f), d)] = open(os.path.join(r_, f)).read()
+        reported = False
+        for gql, pkg, typ, outcomes in finds:
+            bind_lookups += 1
+            ents = defs.get(pkg, [])
+            pos_of = {i + 1: e[1] for i, e in enumerate(ents)}
+            if len([e for e in ents if e[0] in (typ, "Marshal" + typ)]) > 1:
+                bind_shadowed += 1
+            model_out = {}
+            if have_model and ents:
+                enc = ["%s/%d/%s" % (e[0], i + 1, e[2]) for i, e in enumerate(ents)]
+                orders = [("as listed", enc), ("reversed", enc[::-1]),
+                          ("nested scopes first", [x for x in enc if x.endswith("/s")] + [x for x in enc if not x.endswith("/s")]),
+                          ("package scope first", [x for x in enc if x.endswith("/p")] + [x for x in enc if not x.endswith("/p")])]
+                for (label, o), out in zip(orders, ctx.driver("c18", ["idx %s %s" % (",".join(o), typ) for _, o in orders])):
+                    v = out.partition("=")[2]
+                    model_out.setdefault("-" if v == "-" else pos_of.get(int(v), "?") if v.isdigit() else v, label)
+            namesakes = [{"identifier": e[0], "at": e[1], "scope": {"x": "nil object", "n": "no parent scope (method / struct field)", "p": "package scope", "s": "nested scope"}[e[2]]}
+                         for e in ents if e[0] in (typ, "Marshal" + typ)]
+            if len(outcomes) > 1 and not reported:
+                reported = True
+                ctx.violation({"kind": "binder-lookup", "project": p, "graphql_type": gql, "go_package": pkg, "go_type": typ,
+                               "outcomes_of_FindObject": outcomes, "identifiers_of_that_name_in_the_package": namesakes, "input": inputs,
+                               "dimension": meta.get(p, {}), "shape": {"kind": "determinism", "site": "indexDefs"},
+                               "replay": "project %s (files in `input`, directory /verif/go/genout/c18/%s): `.cache/h_c18 -mode find -dir <dir>`: fresh binders resolve %s.%s "
+                                         "(bound to GraphQL type %s) to %s - the index is built by ranging over the map TypesInfo.Defs" % (
+                                             p, p, pkg, typ, gql, " or ".join("%s (%s times)" % kv for kv in sorted(outcomes.items())))})
+            if len(model_out) > 1 and not reported:
+                reported = True
+                ctx.violation({"kind": "binder-model", "project": p, "graphql_type": gql, "go_package": pkg, "go_type": typ,
+                               "outcomes": [{"delivery_order_of_Defs": lab, "FindObject_returns_the_identifier_at": pos} for pos, lab in model_out.items()],
+                               "identifiers_of_that_name_in_the_package": namesakes, "input": inputs,
+                               "shape": {"kind": "determinism", "model": "IndexDefs"},
+                               "replay": "project %s (directory go/genout/c18/%s, files in `input`): with the guards of binder.indexDefs as regenerated from codegen/config/binder.go "
+                                         "(Gen/IndexDefs.lean) FindObject(%s, %s) returns the identifier at %s depending on the order in which TypesInfo.Defs is delivered "
+                                         "(driver_c18 `idx`)" % (p, p, pkg, typ, " or ".join(sorted(model_out)))})
+            if len(outcomes) == 1 and len(model_out) == 1:
+                real = next(iter(outcomes))
+                real_pos = "-" if real.startswith("ERR:") else real.partition("@")[2]
+                if real_pos != next(iter(model_out)):
+                    ctx.violation({"kind": "correspondence", "project": p, "what": "object returned by Binder.FindObject vs the index model over Gen/IndexDefs",
+                                   "lookup": "%s.%s" % (pkg, typ), "FindObject": real, "model": next(iter(model_out)), "input": inputs,
+                                   "replay": "project %s: FindObject(%s, %s) = %s; Model/IndexDefs.lean over Gen/IndexDefs.lean predicts the identifier at %s" % (
+                                       p, pkg, typ, real, next(iter(model_out)))}, no_failing_input=True)
+
+    timings["binder_lookups"] = round(time.time() - t0, 1)
+    t0 = time.time()
+    # ------------------------------------------------------------ templates.Render on template sets: separate processes x repeated renders,
+    # and the regenerated comparator (model) on the set's names delivered in several orders vs the regions of the rendered file
+    troot = os.path.join(vf.GO, "genout", "c18tpl")
+    shutil.rmtree(troot, ignore_errors=True)
+    tsets = [("d_" + c, t) for c, t in c18proj.load_template_corpus(os.path.join(vf.VERIF, "corpus", "C18", "_templates"))]
+    tsets += c18proj.template_sets(vf.Rng(ctx.seed * 7919 + 1805), 8 if quick else 30)
+    for case, t in tsets:
+        for rel, text in t["files"].items():
+            fp_ = os.path.join(troot, "in", case, rel)
+            os.makedirs(os.path.dirname(fp_), exist_ok=True)
+            open(fp_, "w").write(text)
+    caller_dir = os.path.join(vf.GO, "harness", "c18", "callerdir")
+    tsets.append(("callerdir", {"files": {f: open(os.path.join(caller_dir, f)).read() for f in sorted(os.listdir(caller_dir)) if not f.endswith(".go")}}))
+    tplan = [(1, "dir"), (4, "map"), (16, "dir")] + ([] if quick else [(2, "map"), (8, "dir"), (3, "map")])
+
+    def render_one(a):
+        k, (procs, fsm) = a
+        env = vf.go_env()
+        env.update({"GOMAXPROCS": str(procs), "GOMEMLIMIT": "3GiB"})
+        return vf.sh([hbin, "-mode", "render", "-tplroot", os.path.join(troot, "in"), "-fs", fsm, "-reps", "6" if quick else "12",
+                      "-out", os.path.join(troot, "out%d" % k)], cwd=vf.GO, env=env, timeout=600)
+
+    with ThreadPoolExecutor(max_workers=3) as ex:
+        routs = list(ex.map(render_one, enumerate(tplan)))
+    renders = {}
+    for (procs, fsm), (rc, so, se) in zip(tplan, routs):
+        if rc != 0:
+            raise RuntimeError("h_c18 -mode render failed: " + (so + se)[-600:])
+        for l in so.split("\n"):
+            f = l.split("\t")
+            if f[0] == "render":
+                renders.setdefault(f[1], []).append({"GOMAXPROCS": procs, "fs": fsm if f[1] != "callerdir" else "caller", "rep": int(f[2]), "sha256": f[3],
+                                                     "regions": f[4] if len(f) > 4 else ""})
+    render_cmp = render_runs = 0
+    tpl_hist = Counter()
+    for case, t in tsets:
+        rs = renders.get(case, [])
+        if not rs:
+            raise RuntimeError("no render of template set " + case)
+        render_cmp += 1
+        render_runs += len(rs)
+        names = c18proj.template_names(t["files"])
+        n_imp = len([n for n in names if n.endswith("!.gotpl") and not n.endswith("_.gotpl")])
+        tpl_hist["template-set:%s important roots" % (n_imp if n_imp < 4 else "4+")] += 1
+        variants = {}
+        for r in rs:
+            variants.setdefault((r["sha256"], r["regions"]), r)
+        if len(variants) > 1:
+            (ka, ra), (kb, rb) = list(variants.items())[:2]
+            mismatches += 1
+            ctx.violation({"kind": "render-hash-mismatch", "template_set": case, "templates": t["files"], "important_roots": n_imp,
+                           "render_a": {**{k: v for k, v in ra.items() if k in ("GOMAXPROCS", "fs", "rep")}, "regions_in_file_order": ka[1].split(","), "sha256": ka[0]},
+                           "render_b": {**{k: v for k, v in rb.items() if k in ("GOMAXPROCS", "fs", "rep")}, "regions_in_file_order": kb[1].split(","), "sha256": kb[0]},
+                           "distinct_outputs": len(variants), "renders": len(rs),
+                           "shape": {"kind": "determinism", "site": "templates.Render", "important_roots": min(n_imp, 4)},
+                           "replay": "template set %s (files in `templates`, directory /verif/go/genout/c18tpl/in/%s): `.cache/h_c18 -mode render -tplroot go/genout/c18tpl/in -fs %s -out <dir>` "
+                                     "(templates.Render with Options.TemplateFS, %d renders in %d processes) wrote %d different files: regions %s vs %s" % (
+                                         case, case, rb["fs"], len(rs), len(tplan), len(variants), ka[1], kb[1])})
+        if have_model and all(re.match(r"^[A-Za-z0-9_!.\-]+$", n) for n in names):
+            rot = names[1:] + names[:1]
+            imp_last = [n for n in names if not n.endswith("!.gotpl")] + [n for n in names if n.endswith("!.gotpl")][::-1]
+            orders = [("as listed", names), ("reversed", names[::-1]), ("rotated", rot), ("important last, reversed", imp_last)]
+            outs = ctx.driver("c18", ["roots " + (",".join(o) or "-") for _, o in orders])
+            mo = {}
+            for (label, _), out in zip(orders, outs):
+                mo.setdefault(out, label)
+            if len(mo) > 1:
+                ctx.violation({"kind": "render-order-model", "template_set": case, "templates": t["files"], "template_names": names,
+                               "outcomes": [{"delivery_order_of_t.Templates()": lab, "roots_executed_in_the_order": o.split(",")} for o, lab in mo.items()],
+                               "shape": {"kind": "determinism", "model": "RenderOrder", "important_roots": min(n_imp, 4)},
+                               "replay": "template set %s (files in `templates`, directory /verif/go/genout/c18tpl/in/%s): with the comparator of templates.Render as regenerated from "
+                                         "codegen/templates/templates.go (Gen/RenderOrder.lean) the roots are executed in the order %s depending on the order in which the map "
+                                         "t.Templates() delivers them (driver_c18 `roots %s`)" % (case, case, " or ".join(sorted(mo)), ",".join(names))})
+            elif len(variants) == 1 and not rs[0]["sha256"] == "ERROR":
+                got = rs[0]["regions"]
+                if got != next(iter(mo)):
+                    ctx.violation({"kind": "correspondence", "template_set": case, "what": "order of the regions of the rendered file vs the root-order model over Gen/RenderOrder",
+                                   "rendered": got.split(","), "model": next(iter(mo)).split(","), "templates": t["files"],
+                                   "replay": "template set %s: the rendered file has the regions %s; Model/RenderOrder.lean over Gen/RenderOrder.lean (driver_c18 `roots %s`) predicts %s" % (
+                                       case, got, ",".join(names), next(iter(mo)))}, no_failing_input=True)
+
+    timings["template_sets"] = round(time.time() - t0, 1)
     # ------------------------------------------------------------ broken proof
     if ok_extract and not proved:
         found = any(not nf for _, nf in ctx.violations)
@@ -662,7 +883,11 @@ def run(ctx):
 
     cls = Counter(s["class"] for s in sites)
     ctx.cov.update({
-        "evaluations": total_runs + order_cmp + ptr_cmp + regen_cases + regen_cmp + layout_cmp + xf_cmp,
+        "evaluations": total_runs + order_cmp + ptr_cmp + regen_cases + regen_cmp + layout_cmp + xf_cmp + bind_lookups + render_runs,
+        "binder_lookup_comparisons": {"projects": bind_cmp, "lookups": bind_lookups, "lookups_with_namesakes_in_other_scopes": bind_shadowed,
+                                      "fresh_binders_per_lookup": 12 if quick else 24},
+        "timings_s": timings,
+        "template_set_comparisons": {"sets": render_cmp, "renders": render_runs, "processes": len(tplan)},
         "per_schema_build_comparisons": {"projects": layout_cmp, "generated_files": layout_files,
                                          "projects_with_shared_base_names": len([p for p in layouts if layouts[p]["shared"] and results[p][0] is not None])},
         "extra_field_order_comparisons": {"projects": xf_cmp, "structs": xf_structs},
@@ -672,7 +897,7 @@ def run(ctx):
         "project_dimensions": dict(Counter(meta[p]["dimension"] for p in projects if p in meta)),
         "distinct_nontrivial": len(nontriv),
         "rule": "one evaluation = one real generation in its own process (fresh map seed) compared file-by-file (SHA-256) with the first run of the same project, or one declaration-order comparison against the order model under 4 permutations; or one project's struct fields compared with the cycle-pass model, or one import-alias regeneration case of the import-table model; non-trivial = each project (order-stress project with >8 types of every kind over 3 files, the exec probe, federation, seeded random projects of the C17 grammar, relations / imports / literals projects of checks/c18proj.py, corpus/C18)",
-        "input_distribution": dict(branch),
+        "input_distribution": {**dict(branch), **dict(tpl_hist)},
         "map_range_sites": len(sites),
         "map_range_classes": dict(cls),
         "error_path_sites": len([s for s in sites if s["error_path"]]),
